@@ -1065,7 +1065,8 @@ class Proc(object):
                 return self.cond(e.values[i], en, kt, lambda en2: go(i + 1, en2))
             return go(0, env)
         # key in d / key not in d  on a local dictionary: the branch where it is present knows d[key]
-        if isinstance(e, ast.Compare) and len(e.ops) == 1 and isinstance(e.ops[0], (ast.In, ast.NotIn)) and isinstance(e.comparators[0], (ast.Name, ast.Attribute)) \
+        if isinstance(e, ast.Compare) and len(e.ops) == 1 and isinstance(e.ops[0], (ast.In, ast.NotIn)) \
+                and isinstance(e.comparators[0], (ast.Name, ast.Attribute) if self.spec.get("narrow_attr_dicts") else ast.Name) \
                 and self.seg(e.comparators[0]) in env.vars and isinstance(env.vars[self.seg(e.comparators[0])][1], tuple) and env.vars[self.seg(e.comparators[0])][1][0] == "AssocL":
             d, dty = env.vars[self.seg(e.comparators[0])]
             key = self.coerce(*self.expr(e.left, env), dty[1])
@@ -2064,7 +2065,7 @@ PROCS = [
          class_bases=[("config/_potential_form_builder.py", "UnknownModifierException", "ConfigurationException"),
                       ("config/_potential_form_builder.py", "UnknownPotentialFormException", "ConfigurationException")],
          raises=[("Unknown modifier '", "PairErr.unknownModifier"), ("Unknown potential form '", "PairErr.unknownForm"), ("Problem defining", "PairErr.problemDefining")]),
-    dict(name="read_from_parser", file="config/_configuration.py", func="Configuration.read_from_parser", drop_logging=True, retype=["tabulation_target"],
+    dict(name="read_from_parser", file="config/_configuration.py", func="Configuration.read_from_parser", drop_logging=True, retype=["tabulation_target"], narrow_attr_dicts=True,
          params=[("self._tabulation_factories", ("AssocL", "Str", ("Rec", "FactoryObj"))), ("cp", ("Rec", "CpT"))], ret=("Except", "TargetErr", ("Rec", "TabulationObj")),
          records={"CpT": {"tabulation": ("tabulation", ("Rec", "TabT"))}, "TabT": {"target": ("target", ("Opt", "Str"))}, "FactoryObj": {}, "TabulationObj": {}},
          implicit=[("createTabulation", ("Fun", [("Rec", "FactoryObj"), ("Rec", "CpT")], ("Except", "TargetErr", ("Rec", "TabulationObj"))))],
